@@ -1,6 +1,7 @@
 /* Monitor for C01: every destination pixel of pixman_image_composite32 against the
  * compositing equations (exact integer rule / real-valued interval). */
 #include "vf.h"
+#include "vf_req.h"
 #include "ref_pixel.h"
 #include "ref_ops.h"
 #include <math.h>
@@ -83,10 +84,12 @@ static void put_generated (vf_rng *r, pixman_format_code_t f, uint8_t *row, int 
 
 typedef struct { vf_buf buf; pixman_image_t *img; pixman_format_code_t fmt; int solid; uint8_t solid8[4]; int w;
                  int xo, yo;        /* offset of the request inside the image (shared-storage operands only; 0 otherwise) */
-                 int borrowed;      /* the storage belongs to another operand */ } operand_t;
+                 int borrowed;      /* the storage belongs to another operand */
+                 pixman_indexed_t *pal; /* palette of an indexed (c8/g8/c4/g4/g1) operand */ } operand_t;
 
-static void operand_free (operand_t *o) { if (o->img) pixman_image_unref (o->img); if (!o->solid && !o->borrowed) vf_buf_free (&o->buf); memset (o, 0, sizeof *o); }
+static void operand_free (operand_t *o) { if (o->img) pixman_image_unref (o->img); if (!o->solid && !o->borrowed) vf_buf_free (&o->buf); free (o->pal); memset (o, 0, sizeof *o); }
 
+static int force_runs;
 /* kind: 0 bits image of width n, 1 solid fill, 2 1x1 repeating bits */
 static int operand_make (operand_t *o, vf_rng *r, pixman_format_code_t f, int n, int kind, int premult)
 {
@@ -100,9 +103,24 @@ static int operand_make (operand_t *o, vf_rng *r, pixman_format_code_t f, int n,
     int w = kind == 2 ? 1 : n;
     if (!vf_buf_alloc (&o->buf, f, w, 1, (int)(vf_next (r) % 2), 0, vf_default_place (r))) return 0;
     memset (o->buf.base, 0, o->buf.bytes);
+    if (rp_is_indexed (f)) {
+        /* palette operand: the pixel is an index, its value the palette entry (always opaque) */
+        for (int x = 0; x < w; x++) vf_put_px (vf_buf_row (&o->buf, 0), o->buf.bpp, x, vf_u32 (r));
+        o->pal = rq_make_palette (f, vf_next (r));
+    } else if (!rp_is_wide (f) && w >= 8 && (force_runs || vf_chance (r, 1, 4))) {
+        /* runs: stretches of opaque, of transparent and of translucent pixels (SIMD routines treat aligned groups of such pixels specially) */
+        int x = 0; while (x < w) { int len = (int)vf_range (r, 3, 12), kind3 = (int)(vf_next (r) % 3);
+            for (int i = 0; i < len && x < w; i++, x++) { uint8_t p8[4]; gen8 (r, premult, p8);
+                if (kind3 == 0) { p8[0] = 255; } else if (kind3 == 1) { p8[0] = 0; if (premult) p8[1] = p8[2] = p8[3] = 0; }
+                else if (premult) { for (int c = 1; c < 4; c++) if (p8[c] > p8[0]) p8[c] = p8[0]; }
+                uint32_t raw = rp_encode8 (f, p8);
+                if (premult) { int sh[4], bits[4]; rp_layout (f, sh, bits); if (bits[0]) { uint32_t av = (raw >> sh[0]) & ((1u << bits[0]) - 1); for (int c = 1; c < 4; c++) if (bits[c]) { uint32_t mx = (1u << bits[c]) - 1, v = (raw >> sh[c]) & mx; while (v > 0 && (uint64_t)v * ((1u << bits[0]) - 1) > (uint64_t)av * mx) v--; raw = (raw & ~(mx << sh[c])) | (v << sh[c]); } } }
+                vf_put_px (vf_buf_row (&o->buf, 0), o->buf.bpp, x, raw | (vf_u32 (r) & ~rp_defined_mask (f))); } }
+    } else
     for (int x = 0; x < w; x++) put_generated (r, f, vf_buf_row (&o->buf, 0), x, premult);
     o->img = vf_buf_image (&o->buf);
     if (!o->img) { vf_buf_free (&o->buf); return 0; }
+    if (o->pal) pixman_image_set_indexed (o->img, o->pal);
     if (kind == 2) { pixman_image_set_repeat (o->img, PIXMAN_REPEAT_NORMAL); o->w = 1; }
     return 1;
 }
@@ -110,12 +128,15 @@ static void operand_px8 (const operand_t *o, int x, uint8_t p[4])
 {
     if (o->solid) { memcpy (p, o->solid8, 4); return; }
     if (o->w == 1) x = 0;
+    if (o->pal) { uint32_t raw = vf_get_px (vf_buf_row (&o->buf, o->yo), o->buf.bpp, x + o->xo), c = o->pal->rgba[raw & ((1u << o->buf.bpp) - 1) & 0xff];
+        p[0] = (uint8_t)(c >> 24); p[1] = (uint8_t)(c >> 16); p[2] = (uint8_t)(c >> 8); p[3] = (uint8_t)c; return; }
     rp_decode8 (o->fmt, vf_get_px (vf_buf_row (&o->buf, o->yo), o->buf.bpp, x + o->xo), p);
 }
 static void operand_pxf (const operand_t *o, int x, double p[4])
 {
     if (o->solid) { for (int c = 0; c < 4; c++) p[c] = o->solid8[c] / 255.0; return; }
     if (o->w == 1) x = 0;
+    if (o->pal) { uint8_t p8[4]; operand_px8 (o, x, p8); for (int c = 0; c < 4; c++) p[c] = p8[c] / 255.0; return; }
     rp_decodef_row (o->fmt, vf_buf_row (&o->buf, o->yo), x + o->xo, p);
 }
 
@@ -136,7 +157,16 @@ static void c01_case (long idx, vf_rng *r)
     int skind = (int)(vf_next (r) % 6); skind = skind < 4 ? 0 : skind - 3;           /* 0 bits, 1 solid, 2 1x1 repeat */
     int mkind = (int)(vf_next (r) % 6); mkind = mkind < 4 ? 0 : mkind - 3;
     if (exhaustive_alpha) skind = mkind = 0;
-    int shared_pair = !exhaustive_alpha && mode == RO_UNIFIED && vf_chance (r, 1, 8);
+    if (!exhaustive_alpha && vf_chance (r, 1, 16)) { static const pixman_format_code_t idx_f[] = { PIXMAN_g8, PIXMAN_c8, PIXMAN_g4, PIXMAN_c4, PIXMAN_g1, PIXMAN_g8 }; sf = VF_PICK (r, idx_f); vf_count ("indexed_sources", 1); }
+    if (!exhaustive_alpha && mode != RO_NOMASK && vf_chance (r, 1, 24)) { static const pixman_format_code_t idx_f[] = { PIXMAN_g8, PIXMAN_c8, PIXMAN_g4 }; mf = VF_PICK (r, idx_f); }
+    /* rows longer than the general path's on-stack scanline buffers */
+    if (!exhaustive_alpha && vf_chance (r, 1, 40)) { n = (int)vf_range (r, 501, 1400); vf_count ("long_rows", 1); }
+    /* a full-colour image used as a unified mask (only its alpha counts), same layout as the source: the x86 routines for this pairing copy
+     * aligned groups of opaque pixels */
+    force_runs = 0;
+    if (!exhaustive_alpha && mode == RO_UNIFIED && vf_chance (r, 1, 10)) { sf = mf = vf_chance (r, 1, 2) ? PIXMAN_a8r8g8b8 : PIXMAN_a8b8g8r8; df = vf_chance (r, 1, 2) ? sf : (sf == PIXMAN_a8r8g8b8 ? PIXMAN_x8r8g8b8 : PIXMAN_x8b8g8r8);
+        if (vf_chance (r, 2, 3)) op = PIXMAN_OP_OVER; force_runs = 1; if (n < 12) n = 12 + (int)(vf_next (r) % 40); }
+    int shared_pair = !exhaustive_alpha && mode == RO_UNIFIED && !force_runs && vf_chance (r, 1, 8);
     if (shared_pair) { int bgr = vf_chance (r, 1, 2); sf = bgr ? PIXMAN_x8b8g8r8 : PIXMAN_x8r8g8b8; mf = bgr ? PIXMAN_a8b8g8r8 : PIXMAN_a8r8g8b8; skind = mkind = 0; if (vf_chance (r, 1, 2)) op = PIXMAN_OP_OVER;
         if (vf_chance (r, 2, 3)) { static const pixman_format_code_t pd[] = { PIXMAN_a8r8g8b8, PIXMAN_x8r8g8b8, PIXMAN_r5g6b5, PIXMAN_a8b8g8r8, PIXMAN_x8b8g8r8, PIXMAN_b5g6r5 }; df = VF_PICK (r, pd); } }
     if (skind == 1) sf = PIXMAN_a8r8g8b8;          /* a solid fill has no storage format; it is a narrow operand */
